@@ -4,7 +4,8 @@ from .conc_common import *
 
 RULE = ("programs: a freshly started client session (Settings buffered) with 2-4 tasks each doing open; disable-buffering; "
         "1-3 data writes (plus plain sessions with raw control/data writes); schedules: every interleaving of two tasks' first "
-        "steps up to a bound, then random schedules with pre-emption at every hook point, each followed by a round-robin drain. "
+        "steps up to a bound, then random schedules with pre-emption at every hook point, each followed by a round-robin drain; plus a "
+        "multi-threaded start-up stress with a heartbeat (oracle only: the settings frame is the first frame). "
         "Non-trivial = at least two tasks have a step between another task's first and last step (a real interleaving); "
         "distinct by sha256 of (programs, schedule).")
 SIDE_LEMMAS = 3
